@@ -1,6 +1,7 @@
 (* C11 - the wallet birthday is never later than creation and accurate to one month.
    reported t = what polyseed_get_birthday returns for a seed created at clock value t. *)
-From PS Require Import Base MiscDefs SpecDefs MiscProofs.
+From PS Require Import Base MiscDefs SpecDefs MiscProofs ApiDefs ApiTheorems.
+From PS.Gen Require Import Consts Langs.
 Local Open Scope N_scope.
 
 Theorem C11_window : forall t,
@@ -25,3 +26,20 @@ Print Assumptions C11_grid.
 Theorem C11_range_end : 1635768000 + 1024 * 2629746 = 4328627904.
 Proof. exact bday_range_end. Qed.
 Print Assumptions C11_range_end.
+
+(* at the API: the seed created at clock value t reports `reported t` (the clock value is whatever
+   the injected time function returned - any uint64_t) *)
+Theorem C11_api : forall sgn cs features rand clock h,
+  outp (step sgn langs cs (OpCreate features rand clock true)) = OutStatus ST_OK (Some h) None ->
+  outp (step sgn langs (stp (step sgn langs cs (OpCreate features rand clock true))) (OpGetBirthday h)) =
+    OutNum (reported clock).
+Proof. exact create_birthday. Qed.
+Print Assumptions C11_api.
+
+(* the stored month index is the specification's, and survives every transformation because the
+   abstract seed does (C13_refinement; C01, C06, C12 leave a_birthday unchanged) *)
+Theorem C11_index : forall t, t < 2 ^ 64 ->
+  birthday_encode t = spec_birthday_index t /\
+  birthday_decode (birthday_encode t) = spec_birthday_time (spec_birthday_index t).
+Proof. exact bday_is_spec. Qed.
+Print Assumptions C11_index.
